@@ -88,7 +88,7 @@ def run(pid, tier):
     }
     out.assumptions = TRUSTED + [
         'BOUNDED in input length (stated per harness); full value domain only under Kani at length <= 3/5',
-        'percentile end-to-end is checked natively only (lengths <= 5/6 over {0..3}, p on the 1/8 grid of [0,100]); the index obligation is complete for len <= 2^40 (quick) / 2^52 (thorough)',
+        'percentile end-to-end is checked natively only (lengths <= 5/6 over {0..3}, p on the 1/8 grid of [0,100]); the index obligation is complete for len <= 2^40 (quick) / 2^46 (thorough; beyond 2^47 the product len*50 is no longer exact in f64, so the mid-rank oracle would be wrong, and no such Vec exists)',
         'sum: overflow excluded by construction of the inputs (wrapping/panicking overflow of the user type is outside the property)',
         'mean: exactness argument needs |partial sums| < 2^53',
         'user-defined aggregators are outside the claim',
